@@ -150,6 +150,30 @@ theorem repeat_exact (M : Machine) (f f' i : Nat) (e : Option Int) (w : World) (
     ∧ (repeatOf w rep = 0 → out.2.1 = 0 ∧ out.1.sent = w.sent ∧ out.1.total = w.total) :=
   (delegate_spec (runState_good M f) i e f' w out h).2.2 init rep store hk
 
+/-- **`octets` / `octets_drop` / `octets_struct` with repeat `n` consume exactly `n` symbols or
+fail** (a dfa over a single consuming terminal state): fixed-size fields, payloads counted by a
+length field (`enip_machine`'s `repeat='.length'`, Unconnected Send's request) and the repaired
+"unrecognized CPF item" scanner end exactly at the boundary the count declares, never beyond it. -/
+theorem octets_exact (M : Machine) (f f' i j : Nat) (e : Option Int) (w : World) (rep : Spec)
+    (out : World × Nat × Bool)
+    (hk : (M.st i).kind = .dfa j rep none) (hb : (M.st j).isByte)
+    (h : delegate M (runState M f) i e f' w = .ok out) :
+    out.1.sent = w.sent + repeatOf w rep := by
+  unfold delegate at h
+  rw [hk] at h
+  simp only at h
+  split at h
+  · simp at h
+  · rename_i w2 k st hcy
+    simp only [Except.ok.injEq] at h; subst h
+    have := (cycleLoop_bytes M f i j e _ f' 0 _ _ hb hcy).1
+    simp only [Nat.sub_zero] at this
+    rw [this]
+    have hs : ((resolve w rep).2.setDfa i
+        { ((resolve w rep).2.dfa M i) with cycle := 0, final := (resolve w rep).1.getD 1 }).sent = w.sent := by
+      rw [(setDfa_idle _ _ _).sent, (resolve_idle w rep).sent]
+    simp only [hs, repeatOf]
+
 /-! ## the outermost run -/
 
 /-- **A top-level parser given `limit = L` that completes has consumed at most `L` symbols (after
@@ -245,6 +269,10 @@ example : errOf (runTop (octetsM 3) 40 1 { src := { rest := [1, 2, 3, 4, 5, 6] }
 example : sentOf (runTop (octetsM 5) 40 1 { src := { rest := [1, 2, 3, 4, 5, 6] } })
     = some (5, some 6, true) := by
   decide +kernel
+
+/-- the hypotheses of `octets_exact` hold for this machine -/
+example : ((octetsM 5).st 0).isByte ∧ ((octetsM 5).st 1).kind = .dfa 0 (.const 5) none := by
+  simp [State.isByte, octetsM, Machine.st]
 
 /-- a two-byte element (`words`) under a limit that cuts it in half: the sub-machine stops in a
 non-terminal state (`NonTerminal`) -/
